@@ -809,7 +809,7 @@ def run(ck):
             {"UNI_FILE": files[name]}, workers=1, timeout=600)
     # 2. spec -> code
     D = 3
-    nsim = ck.pick(40, 400)
+    nsim = ck.pick(40, 200)
     for k, name in enumerate(("main", "second")):
         job(f"Simulate:Commandline_Sim {name} num={nsim} depth={D}", "Commandline_Sim",
             mc_cfg("SimSpec", 1, only="InvOutcomeTotal", extra=f"  D = {D}\n"), {"UNI_FILE": files[name]},
@@ -817,7 +817,7 @@ def run(ck):
     # 3. code -> spec: random universes, random histories
     r_ = rng(8)
     unis, events, tid = [], [], 0
-    for _u in range(ck.pick(12, 120)):
+    for _u in range(ck.pick(12, 60)):
         uni = random_universe(r_)
         unis.append(uni)
         for _t in range(ck.pick(5, 8)):
